@@ -209,7 +209,12 @@ class LitGen:
         if st == "direct":
             return P("direct", name, spec, ws=ws, fld=name)
         expr = name
-        if spec_ty(spec) == "p" and not generic and rng.random() < 0.6:
+        if spec_ty(spec) == "p":
+            # `{:p}` with a plain field argument is left out: the documentation says it prints the address of
+            # the reference to the field, but a lone such placeholder is delegated "transparently" and prints
+            # the field itself (a C02/C05 matter, not this property's); `*field` is unambiguous
+            if generic:
+                return P("direct", name, spec, ws=ws, fld=name)
             expr = "*" + name
         if st == "alias":
             return P("alias", expr, spec, name=rng.choice(aliases), ws=ws, fld=name)
@@ -532,11 +537,12 @@ def gen_enum(rng, trait=None, mode=None, allow_known=True, bad_multi=False):
             v.fields[fi] = (v.fields[fi][0], "T", inst)
             es.generic = inst
     # rename_all
-    if rng.random() < 0.3:
+    named_by_name = any(not v.fields and v.own is None for v in es.variants)
+    if rng.random() < (0.5 if named_by_name else 0.2):
         es.rename = rng.choice(CASINGS)
         es.rename_first = rng.random() < 0.5
     for v in es.variants:
-        if rng.random() < (0.3 if not v.fields else 0.05):
+        if rng.random() < (0.4 if not v.fields else 0.05):
             v.rename = rng.choice(CASINGS)
             v.rename_first = rng.random() < 0.5
 
